@@ -65,6 +65,7 @@ AsmContext::AsmContext() :
   optimize               { false },
   ignore_number_postfix  { false },
   in_repeat              { false },
+  address_wrapped        { false },
   flags                  { 0 },
   extra_context          { 0 }
 {
@@ -101,6 +102,7 @@ void AsmContext::init()
   include_depth     = 0;
   bytes_per_address = 1;
   in_repeat         = 0;
+  address_wrapped   = false;
 
   // Whatever a CPU directive, .big_endian, .bss or .msp430_cpu4 changed
   // during pass 1 must not be in effect when pass 2 starts, or the lines
